@@ -65,6 +65,7 @@ type Conn struct {
 	// Write state.
 	msgWriter      *msgWriter
 	writeFrameMu   *mu
+	closeFrameSent bool // Guarded by writeFrameMu.
 	writeBuf       []byte
 	writeHeaderBuf [8]byte
 	writeHeader    header
